@@ -144,6 +144,17 @@ struct FnEmitter {
           Lexer::isAtStartOfMacroExpansion(s->getBeginLoc(), SM, Ctx.getLangOpts()) &&
           Lexer::isAtEndOfMacroExpansion(s->getEndLoc(), SM, Ctx.getLangOpts()))
         J.attribute("mfull", true);
+      {
+        // file character range of the node when it is written out in one piece (also inside a macro argument): used by the
+        // behaviour-preserving rewriter (bin/benign-fuzz), never by a rule
+        CharSourceRange R = Lexer::makeFileCharRange(CharSourceRange::getTokenRange(s->getSourceRange()), SM, Ctx.getLangOpts());
+        if (R.isValid() && SM.isWrittenInSameFile(R.getBegin(), R.getEnd())) {
+          J.attribute("bo", (int64_t)SM.getFileOffset(R.getBegin()));
+          J.attribute("eo", (int64_t)SM.getFileOffset(R.getEnd()));
+          PresumedLoc P = SM.getPresumedLoc(R.getBegin());
+          if (P.isValid() && fnFile != P.getFilename()) J.attribute("rf", P.getFilename());
+        }
+      }
       J.attributeArray("c", [&] {
         for (const Stmt *c : s->children()) J.value(c ? (int64_t)id(c) : (int64_t)-1);
       });
